@@ -9,13 +9,14 @@ namespace KikiVerif
 namespace Driver
 open LR
 
-/-- the automaton the emitted `get_action` / `get_goto` implement -/
+/-- the automaton the emitted `get_action` / `get_goto` implement (their column arguments are values of the
+emitted `QuasiterminalKind` / `NonterminalKind` enums, so columns outside the table do not exist) -/
 def autoOfTable (t : Table.Table) : Auto Nat Nat :=
   { start := t.start, items := fun _ _ => False, delta := fun _ _ => none,
     action := fun s la => match la with
       | none => t.action s t.nT
       | some c => if c < t.nT then t.action s c else .err,
-    goto := fun s b => t.goto s b,
+    goto := fun s b => if b < t.nN then t.goto s b else none,
     first := fun _ _ _ => False }
 
 inductive Out (P : Type) where
